@@ -2,9 +2,13 @@ package simcheck
 
 import (
 	"fmt"
+	"reflect"
+	"sort"
 	"strings"
 	"testing"
 	"time"
+
+	"github.com/cosmos72/gomacro/fast"
 
 	"verif/sim"
 )
@@ -29,6 +33,8 @@ type c14Model struct {
 	setterOf map[string]*c14Cell
 	funcs    []string
 	funcOf   map[string]*c14Cell
+	callers  []string
+	callerOf map[string]string // function -> name of the getter variable it calls
 	n        int
 }
 
@@ -102,7 +108,7 @@ func init() {
 	register(&Prop{
 		ID:    "C14",
 		Level: "exploration",
-		Rule: "one run = one seeded REPL history of 10..60 successive evaluations (one top-level statement each): declarations of variables of integer-slot kinds (int, int8, uint8, uint16, int64, bool, float64, complex128 = two slots) and boxed kinds (string, struct, slice) with var and :=, address-taking into pointer variables, closures and functions capturing globals, assignments directly, through pointers and through closures, increments, bursts of further declarations, and read-backs of every variable, pointer, closure and function; the growth chunk of the global slot arrays (16 values / 1024 integer slots in the shipped configuration) is replaced per run by small values so the arrays are reallocated after almost every declaration; one run in 40 instead replays the shipped configuration with more than 1024 integer declarations; " +
+		Rule: "one run = one seeded REPL history of 10..60 successive evaluations (one top-level statement each): declarations of variables of integer-slot kinds (int, int8, uint8, uint16, int64, bool, float64, complex128 = two slots) and boxed kinds (string, struct, slice) with var and :=, address-taking into pointer variables, closures and functions capturing globals, functions calling package-level function variables and later assignments of new functions to those variables, assignments directly, through pointers and through closures, increments, bursts of further declarations, and read-backs of every variable, pointer, closure and function; the growth chunk of the global slot arrays (16 values / 1024 integer slots in the shipped configuration) is replaced per run by small values so the arrays are reallocated after almost every declaration; one run in 40 instead replays the shipped configuration with more than 1024 integer declarations; " +
 			"non-trivial = an address of an integer-slot variable was taken and at least 5 declarations followed; distinct = distinct history",
 		Runs: func(tier string) int {
 			if tier == "thorough" {
@@ -118,14 +124,14 @@ func init() {
 		},
 		Run:        runC14,
 		FaultKinds: []string{"growth_chunk_buggified", "shipped_chunk_long_history", "declaration_after_address_taken"},
-		ProbeNames: []string{"evaluations", "read_backs", "addresses_taken_of_integer_slots", "complex128_declared_after_address_taken", "declarations"},
+		ProbeNames: []string{"redeclarations", "evaluations", "read_backs", "addresses_taken_of_integer_slots", "complex128_declared_after_address_taken", "declarations"},
 		RealVsStub: []string{
 			"real: Interp.Eval (parse, compile, PrepareEnv/prepareEnv growth, NewBind slot assignment, address-taking), every evaluation is a separate top-level statement as in the REPL",
 			"stub: the tuning knob 'minimum growth of the global slot arrays' (hook H5); nothing else",
 		},
 		Assumptions: []string{
 			"decides the second sentence (pointer validity and aliasing across growth) and in-order visibility for the statement kinds above; equality with compiled Go for arbitrary statement kinds is a pure function of the program and is not decided here",
-			"re-declaration of an existing name is not generated (it is not valid in-order compiled Go)",
+			"re-declaration of an existing name (not valid Go, common at the REPL) is generated with a weak oracle only: the name denotes a fresh variable with the new value and no other variable changes; pointers, closures and functions made for the old variable are dropped from the checks",
 		},
 	})
 }
@@ -147,7 +153,7 @@ func runC14(t *testing.T, ch *sim.Choices, tier string) (o Outcome) {
 		hs.Growth = func() (int, int, bool) { return valDelta, intDelta, true }
 		defer func() { hs.Growth = nil }()
 	}
-	m := &c14Model{cell: map[string]*c14Cell{}, ptrTo: map[string]*c14Cell{}, getterOf: map[string]*c14Cell{}, setterOf: map[string]*c14Cell{}, funcOf: map[string]*c14Cell{}}
+	m := &c14Model{cell: map[string]*c14Cell{}, ptrTo: map[string]*c14Cell{}, getterOf: map[string]*c14Cell{}, setterOf: map[string]*c14Cell{}, funcOf: map[string]*c14Cell{}, callerOf: map[string]string{}}
 	var hist []string
 	addrTaken, declsAfterAddr := false, 0
 	fail := func(class, key, msg string) {
@@ -177,6 +183,14 @@ func runC14(t *testing.T, ch *sim.Choices, tier string) (o Outcome) {
 				key = "ints-reallocated-after-address-taken"
 			}
 			fail("eval-error", key, fmt.Sprintf("evaluation %d `%s` failed: %s", len(hist), src, msg))
+			return false
+		}
+		// invariant, checked after every evaluation: the integer slots of the live global
+		// variables lie inside the slot array and do not overlap (complex128 takes two)
+		if len(ir.Comp.Binds) > 300 && len(hist)%64 != 0 {
+			// long histories (shipped configuration): sample the invariant
+		} else if msg := c14SlotInvariant(ir); msg != "" {
+			fail("slot-invariant", "slots", fmt.Sprintf("after evaluation %d `%s`: %s", len(hist), src, msg))
 			return false
 		}
 		if want != "" {
@@ -239,6 +253,12 @@ func runC14(t *testing.T, ch *sim.Choices, tier string) (o Outcome) {
 				return false
 			}
 		}
+		for _, f := range m.callers {
+			// a function that calls a function VARIABLE sees the function assigned last
+			if !eval(f+"()", fmt.Sprint(m.getterOf[m.callerOf[f]].val)) {
+				return false
+			}
+		}
 		return true
 	}
 	steps := 10 + gen.Draw(51)
@@ -253,7 +273,66 @@ func runC14(t *testing.T, ch *sim.Choices, tier string) (o Outcome) {
 	}
 	for s := 0; s < steps; s++ {
 		pick := func(l []string) string { return l[gen.Draw(len(l))] }
-		switch op := gen.Draw(12); {
+		switch op := gen.Draw(15); {
+		case op == 14 && len(m.vars) > 0:
+			// re-declaration of an existing name with another kind, as REPL users do. Go has no
+			// such thing at package level, so only what every reading agrees on is required: the
+			// name now denotes a fresh variable with the new value and NO OTHER variable changes.
+			// Pointers, closures and functions made for the old variable are not used any more.
+			v := pick(m.vars)
+			old := m.cell[v]
+			kind := pick(c14Kinds)
+			m.n++
+			lit, val := c14Literal(kind, m.n)
+			m.cell[v] = &c14Cell{kind, val}
+			drop := func(names []string, of map[string]*c14Cell) []string {
+				var keep []string
+				for _, n := range names {
+					if of[n] != old {
+						keep = append(keep, n)
+					}
+				}
+				return keep
+			}
+			m.ptrs = drop(m.ptrs, m.ptrTo)
+			m.setters = drop(m.setters, m.setterOf)
+			m.funcs = drop(m.funcs, m.funcOf)
+			var keepC []string
+			for _, c := range m.callers {
+				if m.getterOf[m.callerOf[c]] != old {
+					keepC = append(keepC, c)
+				}
+			}
+			m.callers = keepC
+			m.getters = drop(m.getters, m.getterOf)
+			o.probe("redeclarations", 1)
+			if !eval(fmt.Sprintf("var %s %s = %s", v, kind, lit), "") {
+				return
+			}
+		case op == 12 && len(m.getters) > 0:
+			// a declared function calling a package-level function variable
+			g := pick(m.getters)
+			m.n++
+			f := fmt.Sprintf("call%d", m.n)
+			m.callers = append(m.callers, f)
+			m.callerOf[f] = g
+			if !eval(fmt.Sprintf("func %s() %s { return %s() }", f, m.getterOf[g].kind, g), "") {
+				return
+			}
+		case op == 13 && len(m.getters) > 0:
+			// assign a new function to an existing function variable (same result kind)
+			g := pick(m.getters)
+			var cand []string
+			for _, v := range m.vars {
+				if m.cell[v].kind == m.getterOf[g].kind {
+					cand = append(cand, v)
+				}
+			}
+			v := pick(cand)
+			m.getterOf[g] = m.cell[v]
+			if !eval(fmt.Sprintf("%s = func() %s { return %s }", g, m.cell[v].kind, v), "") {
+				return
+			}
 		case op <= 2 || len(m.vars) == 0:
 			if !declare(pick(c14Kinds)) {
 				return
@@ -355,4 +434,44 @@ func runC14(t *testing.T, ch *sim.Choices, tier string) (o Outcome) {
 	o.Nontrivial = addrTaken && declsAfterAddr >= 5
 	o.Sample = map[string]interface{}{"growth_values": valDelta, "growth_integers": intDelta, "shipped_configuration": shipped, "history": clipList(hist, 40)}
 	return
+}
+
+// c14SlotInvariant inspects the compiler's table of global bindings and the global frame.
+func c14SlotInvariant(ir *fast.Interp) string {
+	env := ir.VerifEnv()
+	nints := len(env.Ints)
+	type span struct {
+		name     string
+		from, to int
+	}
+	var spans []span
+	for name, b := range ir.Comp.Binds {
+		if b == nil || b.Desc.Class() != fast.IntBind {
+			continue
+		}
+		n := 1
+		if b.Type != nil && b.Type.Kind() == reflect.Complex128 {
+			n = 2
+		}
+		idx := b.Desc.Index()
+		if idx < 0 {
+			continue
+		}
+		spans = append(spans, span{name, idx, idx + n})
+	}
+	sort.Slice(spans, func(i, j int) bool {
+		if spans[i].from != spans[j].from {
+			return spans[i].from < spans[j].from
+		}
+		return spans[i].name < spans[j].name
+	})
+	for i, sp := range spans {
+		if sp.to > nints && sp.to > cap(env.Ints) {
+			return fmt.Sprintf("variable %s occupies integer slots [%d,%d) but the slot array has capacity %d", sp.name, sp.from, sp.to, cap(env.Ints))
+		}
+		if i > 0 && spans[i-1].to > sp.from {
+			return fmt.Sprintf("variables %s (slots [%d,%d)) and %s (slots [%d,%d)) overlap", spans[i-1].name, spans[i-1].from, spans[i-1].to, sp.name, sp.from, sp.to)
+		}
+	}
+	return ""
 }
